@@ -238,20 +238,41 @@ func RunScalarMixture(c *core.Ctx, checkEM bool) {
 	what := "mixture:" + fam.name
 	c.Logf("%s k=%d, %d EM steps, %d observations %v, pool %s", fam.name, k, steps, n, vecOf(x), cfg)
 	before := snapVecs([]ad.ConstVector{x})
+	// the summarised ("discrete") batch variant for integer valued data
+	discrete := kind != 0 && t.Bool(1, 2)
+	if discrete {
+		what += "(summarised data set)"
+	}
 	run := func(p tp.ThreadPool, tr *emTrace) outcome {
 		var o outcome
+		var est st.ScalarEstimator
 		hook := generic.EmHook{Value: func(m generic.BasicMixture, i int, likelihood, epsilon float64) {
+			// publish the model of this iteration (hooks run on the caller's thread)
+			if d, err := est.GetEstimate(); err == nil {
+				tr.models = append(tr.models, d.CloneScalarPdf())
+			}
 			if i == 0 {
 				return
 			}
 			tr.like = append(tr.like, likelihood)
 		}}
-		est, err := se.NewMixtureEstimator(append([]float64(nil), weights...), mkComponents(), math.Inf(-1), steps, hook)
+		var err error
+		if discrete {
+			est, err = se.NewDiscreteMixtureEstimator(append([]float64(nil), weights...), mkComponents(), math.Inf(-1), steps, hook)
+		} else {
+			est, err = se.NewMixtureEstimator(append([]float64(nil), weights...), mkComponents(), math.Inf(-1), steps, hook)
+		}
 		if err != nil {
 			o.err = err.Error()
 			return o
 		}
-		if pv, site := core.Try(func() { err = est.EstimateOnData(x, nil, p) }); pv != nil {
+		if pv, site := core.Try(func() {
+			// SetData + Estimate: for the summarised variant EstimateOnData would
+			// resolve to the embedded estimator's SetData and skip the summary
+			if err = est.SetData(x, x.Dim()); err == nil {
+				err = est.Estimate(nil, p)
+			}
+		}); pv != nil {
 			if _, ok := pv.(tp.Abort); ok {
 				panic(pv)
 			}
@@ -287,6 +308,18 @@ func RunScalarMixture(c *core.Ctx, checkEM bool) {
 	inputsUnchanged(c, what, before, snapVecs([]ad.ConstVector{x}))
 	if checkEM && par.err == "" {
 		checkMonotone(c, what, par.trace)
+		// the likelihood reported at hook call i is the log-likelihood of the
+		// model published at call i-1 (the model that iteration evaluated)
+		for i := 0; i < len(tr2.like) && i < len(tr2.models); i++ {
+			l := logLikScalar(tr2.models[i], x, nil)
+			if math.IsNaN(l) || math.IsInf(l, 0) {
+				continue
+			}
+			if !relClose(l, tr2.like[i], 1e-8) {
+				c.Fail("hook-likelihood", what+"|reported-likelihood-is-not-that-of-the-model", "%s: hook call %d reported likelihood %.12g, but the log-likelihood of the model of that iteration (published at call %d) is %.12g; data %v", what, i+1, tr2.like[i], i, l, vecOf(x))
+			}
+		}
+		c.Count("hook-likelihood:checked")
 	}
 	c.Nontriv = true
 	c.Sample = map[string]interface{}{"workload": "scalar mixture EM", "components": fam.name, "k": k, "steps": steps, "observations": n, "pool": cfg.String(), "jobs_per_executor": res.JobsPerExecutor, "trace": par.trace}
